@@ -1234,6 +1234,10 @@ class Executor:
             return v
         if isinstance(v, VSet):
             return v.enum()
+        if isinstance(v, VStr):
+            # iterating a string: its one-character strings in order (TB-py)
+            self.st.assume(strlen(v.t) >= 0)
+            return VSeq(strlen(v.t), lambda i: VStr(chr_at(v.t, i)))
         if isinstance(v, VFalseOr):
             self.oblige("noraise.iterate_False", node, z3.Not(v.isfalse))
             return self.as_sequence(v.val, node)
@@ -1744,7 +1748,7 @@ class Executor:
 
     # ---- comprehensions ------------------------------------------------------------------
     def expr_DictComp(self, node):
-        ty = self.contract.locals.get("_dc")
+        ty = self.contract.locals.get(f"_dc{self.loop_nodes.get(id(node))}", self.contract.locals.get("_dc"))  # per comprehension (`_dc<k>`) or common
         if ty is None:
             raise Unsupported("dict comprehension needs the type of its accumulator `_dc` in the contract's locals")
         saved = self.st.env.get("_dc")
